@@ -21,6 +21,7 @@ RULE = (
     "gates reading graph inputs only and not gated themselves) executed set and values must equal RefEval. "
     "Non-trivial: at least one gate decision and one gated start observed; distinct = (program shape, decision vector)."
     ' Directed part on every run: one instance of every loop template (gates with and without wait_for, exits, nested loops, gates on two signals) and a target shared by a default-open gate that has decided and a closed gate that has not (3 list orders x lags 1-3 x both selectors).'
+    ' Also: whole gated / cyclic programs as one nested node (rules judged per nesting level); loops whose gate is cache=True on a backend shared by a history of runs, with exits by None / END / an exit node, compared run by run with the uncached run.'
 )
 ASSUMPTIONS = [
     "decisions are observed at the gate function boundary (return value) and, when a processor is attached, as RouteDecisionEvent",
